@@ -341,7 +341,7 @@ class World:
                         cls=i.cls,
                     )
                 # not our property: keep tracking it as an (unexpectedly) live object
-        if self.on("C10") or self.on("C01"):
+        if self.on("C10") or self.on("C01") or self.on("C09"):
             self.check_frame(op)
         if self.on("C03"):
             self.check_registry(op, outcome, exact)
@@ -364,6 +364,12 @@ class World:
                             f"content_id of {i.name} changed from {i.cid0} to {o.content_id} during {op['op']}",
                         )
                     continue
+                if self.on("C09"):
+                    raise self.viol(
+                        "C09.13 input-modified",
+                        f"C09.frame:{op['op']}:{','.join(changed)}",
+                        f"{op['op']} changed field(s) {changed} of pre-existing node {i.name} ({i.cls})",
+                    )
                 raise self.viol(
                     "C10.1 existing-node-modified",
                     f"C10.1:{op['op']}:{','.join(changed)}",
@@ -1163,6 +1169,157 @@ class Gen:
         return {"op": "replace", "n": ref, "ch": self._gen_changes(o, r), "out": self.out()}
 
 
+
+    # ---- part 2 generators
+    def g_ser(self, actor: str) -> dict[str, Any] | None:
+        r = self.r("ser")
+        ref = self.pick_ref(actor, root_bias=0.7)
+        if ref is None or len(walk(self.w.node_at(ref))) > 25:
+            return None
+        op: dict[str, Any] = {"op": "ser", "n": ref, "fmt": r.choice(self.cfg["formats"]), "opts": r.choice([None, None, "idx"]), "out": self.out()}
+        if self.cfg["faults"] and self.cfg["ser_faults"] and r.random() < 0.3 and any(cname(x) == "Carrier" for x in walk(self.w.node_at(ref))):
+            op["fault"] = {"site": "tok_ser", "k": r.choice([1, 1, 2])}
+        return op
+
+    def g_deser(self, actor: str) -> dict[str, Any] | None:
+        r = self.r("deser")
+        names = [n for n, h in self.w.handles.items() if h.kind == "payload"]
+        if not names:
+            return self.g_ser(actor)
+        op: dict[str, Any] = {"op": "deser", "p": r.choice(names), "entry": r.choice(["ASTNode", "cls"]), "out": self.out()}
+        if self.cfg["faults"] and self.cfg["ser_faults"] and r.random() < 0.25:
+            op["fault"] = {"site": "tok_deser", "k": r.choice([1, 1, 2])}
+        return op
+
+    def g_crash(self, actor: str) -> dict[str, Any] | None:
+        """Crash placed in the gap of a serialize -> deserialize script: drop (part of) the serialized tree."""
+        r = self.r("crash")
+        pls = [h for h in self.w.handles.values() if h.kind == "payload"]
+        if not pls:
+            return self.g_drop(actor)
+        root = r.choice(pls).meta["snap"]["ref"]()
+        cands = [n for n, h in self.w.handles.items() if h.kind == "node" and root is not None and (h.obj is root or any(x is root for x in walk(h.obj)))]
+        del root
+        if not cands:
+            return self.g_drop(actor)
+        return {"op": "drop", "h": r.choice(cands)}
+
+    def g_peer_roundtrip(self, actor: str) -> dict[str, Any] | None:
+        r = self.r("peer")
+        names = [n for n, h in self.w.handles.items() if h.kind == "payload"]
+        if not names or self.w.peer is None:
+            return self.g_ser(actor)
+        return {"op": "peer_roundtrip", "p": r.choice(names)}
+
+    def g_peer_cid(self, actor: str) -> dict[str, Any] | None:
+        ref = self.pick_ref(actor, root_bias=0.7)
+        if ref is None or self.w.peer is None or len(walk(self.w.node_at(ref))) > 20:
+            return None
+        return {"op": "peer_cid", "n": ref}
+
+    def g_findall(self, actor: str) -> dict[str, Any] | None:
+        r = self.r("findall")
+        ref = self.pick_ref(actor, root_bias=0.8)
+        if ref is None:
+            return None
+        xp = r.choice(["//LeafA", "//Expr", "/Seq/@items Expr", "//@items[1]Expr", "//Pair//LeafB", "//Falsy", "//@left Expr"])
+        return {"op": "findall", "n": ref, "xpath": xp, "take": r.choice([1, 1, 2, 5]), "out": self.out()}
+
+    def g_walkgen(self, actor: str) -> dict[str, Any] | None:
+        r = self.r("walkgen")
+        ref = self.pick_ref(actor, root_bias=0.8)
+        if ref is None:
+            return None
+        return {"op": "walkgen", "n": ref, "how": r.choice(["dfs", "bfs", "gather"]), "bottom_up": r.random() < 0.5, "take": r.choice([1, 2, 3]), "out": self.out()}
+
+    def g_gen_next(self, actor: str) -> dict[str, Any] | None:
+        names = [n for n, h in self.w.handles.items() if h.kind == "gen"]
+        if not names:
+            return self.g_findall(actor)
+        return {"op": "gen_next", "h": self.r("gn").choice(names)}
+
+    def g_tree(self, actor: str) -> dict[str, Any] | None:
+        ref = self.pick_ref(actor, root_bias=0.8)
+        return None if ref is None else {"op": "tree", "n": ref, "out": self.out()}
+
+    def g_obs(self, actor: str) -> dict[str, Any] | None:
+        r = self.r("obs")
+        ref = self.pick_ref(actor, root_bias=0.7)
+        if ref is None:
+            return None
+        what = r.choice(["eq", "rich", "walk", "tree", "xpath", "match", "accessors", "ser", "visit"])
+        op: dict[str, Any] = {"op": "obs", "n": ref, "what": what}
+        if what == "eq":
+            op["m"] = self.pick_ref(actor) or ref
+        if what == "xpath":
+            op["xpath"] = r.choice(["//LeafA", "/Pair/@left Expr", "//@items[0]Expr", "//Seq//LeafB"])
+        if what == "match":
+            op["pattern"] = r.choice(["(* @origin -> o)", "(LeafA @a=\"q\" -> v)", "(Seq @items=[(LeafA) * -> rest])", "(Pair @left=(*) -> l @right=$l)"])
+        if what == "ser":
+            op["opts"] = r.choice([None, "idx"])
+        if what == "visit":
+            op["rules"] = {c: "keep" for c in r.sample(["Expr", "LeafA", "Seq", "Pair", "LeafB", "Falsy", "LeafA2"], 3)}
+            op["strict"] = r.random() < 0.5
+        return op
+
+    def g_poke(self, actor: str) -> dict[str, Any] | None:
+        r = self.r("poke")
+        ref = self.pick_ref(actor)
+        if ref is None:
+            return None
+        o = self.w.node_at(ref)
+        f = r.choice(["id", "content_id", "origin"] + [x.name for x in U.FIELDS[cname(o)]])
+        return {"op": "poke", "n": ref, "field": f, "how": r.choice(["set", "del"])}
+
+    def gen_rules(self, o: Any) -> dict[str, Any]:
+        r = self.r("rules")
+        present = sorted({cname(x) for x in walk(o)})
+        cands = sorted(set(present) | {"Expr", "Seq", "LeafA"})
+        n = r.choice([1, 1, 2, 3])
+        rules: dict[str, Any] = {}
+        for c in r.sample(cands, min(n, len(cands))):
+            kinds = ["keep", "rewrite", "rewrite", "fresh", "existing", "remove", "remove"]
+            if self.cfg["faults"]:
+                kinds.append("raise")
+            k = r.choice(kinds)
+            if k == "rewrite":
+                fs = [f for f in U.PROP_FIELDS[c] if f.init and f.vt in ("str", "int")]
+                if not fs:
+                    k = "keep"
+                else:
+                    f = r.choice(fs)
+                    rules[c] = ["rewrite", f.name, self.value(f.vt)]
+                    continue
+            if k == "fresh":
+                save = self.cfg["p_ref"]
+                self.cfg["p_ref"] = 0.0
+                rules[c] = ["fresh", self.spec(r.choice([0, 0, 1]))]
+                self.cfg["p_ref"] = save
+                continue
+            if k == "existing":
+                ref = self.pick_ref("-")
+                if ref is None:
+                    k = "keep"
+                else:
+                    rules[c] = ["existing", ref]
+                    continue
+            rules[c] = k
+        return rules
+
+    def g_transform(self, actor: str) -> dict[str, Any] | None:
+        r = self.r("transform")
+        ref = self.pick_ref(actor, root_bias=0.75)
+        if ref is None:
+            return None
+        o = self.w.node_at(ref)
+        if len(walk(o)) > 25:
+            return None
+        op: dict[str, Any] = {"op": "transform", "n": ref, "rules": self.gen_rules(o), "strict": r.random() < 0.4, "out": self.out()}
+        if self.cfg["faults"]:
+            op["enum"] = True
+        return op
+
+
 def _has_class(spec: Any, cls: str) -> bool:
     if not spec or "ref" in spec:
         return False
@@ -1181,11 +1338,18 @@ def _has_class(spec: Any, cls: str) -> bool:
 # configuration (swarm) and the run entry points
 # ------------------------------------------------------------------------------------------------
 
+_OBS = {"findall": 1.0, "walkgen": 0.7, "gen_next": 0.7, "tree": 0.5, "obs": 2.0}
 BASE_WEIGHTS = {
-    "C03": {"construct": 5, "twin": 4, "drop": 3, "gc": 0.5, "detach_self": 4, "detach": 2.5, "duplicate": 2, "dc_replace": 2, "replace": 4},
-    "C14": {"construct": 5, "twin": 3, "drop": 2, "detach_self": 2, "detach": 1, "duplicate": 5, "dc_replace": 4, "replace": 5},
-    "C10": {"construct": 5, "twin": 2, "drop": 2, "detach_self": 2, "detach": 1.5, "duplicate": 3, "dc_replace": 3, "replace": 3},
-    "C01": {"construct": 6, "twin": 6, "drop": 2, "detach_self": 1.5, "detach": 1, "duplicate": 2, "dc_replace": 3, "replace": 2},
+    "C03": {"construct": 5, "twin": 4, "drop": 3, "gc": 0.5, "detach_self": 4, "detach": 2.5, "duplicate": 2, "dc_replace": 2, "replace": 4,
+            "ser": 1.5, "deser": 2, "crash": 1, "transform": 1, **_OBS},
+    "C14": {"construct": 5, "twin": 3, "drop": 2, "detach_self": 2, "detach": 1, "duplicate": 5, "dc_replace": 4, "replace": 5, "ser": 0.5, "deser": 0.5},
+    "C10": {"construct": 5, "twin": 2, "drop": 2, "detach_self": 2, "detach": 1.5, "duplicate": 3, "dc_replace": 3, "replace": 3,
+            "ser": 2, "deser": 2.5, "crash": 0.5, "transform": 3, "poke": 2, "findall": 1.5, "walkgen": 1, "gen_next": 1, "tree": 1, "obs": 5},
+    "C01": {"construct": 6, "twin": 6, "drop": 2, "detach_self": 1.5, "detach": 1, "duplicate": 2, "dc_replace": 3, "replace": 2,
+            "ser": 1, "deser": 1, "peer_cid": 1.2, "peer_roundtrip": 0.5, "transform": 0.5},
+    "C04": {"construct": 5, "twin": 3, "drop": 2, "crash": 3, "detach_self": 1.5, "detach": 1, "duplicate": 1, "dc_replace": 1, "replace": 1.5,
+            "ser": 6, "deser": 7, "peer_roundtrip": 1.0},
+    "C09": {"construct": 5, "twin": 2, "drop": 2, "detach_self": 1.5, "detach": 1, "duplicate": 1, "replace": 1, "transform": 8, "obs": 0.5},
 }
 
 
@@ -1193,7 +1357,7 @@ def make_config(rseed: int, prop: str, tier: str, faults: bool) -> dict[str, Any
     rng = Rng(rseed)
     r = rng.s("config")
     digest = r.choice([1, 2, 8, 8, 16]) if prop in ("C03", "C14", "C10", "C04", "C09") else r.choice([8, 8, 16, 32])
-    rtc = r.random() < 0.3
+    rtc = r.random() < 0.3 and prop not in ("C09",)
     nstr = r.choice([2, 3, 4, 6])
     strpool = r.sample(U.STR_POOL, nstr)
     if prop == "C01" and r.random() < 0.5:
@@ -1206,11 +1370,16 @@ def make_config(rseed: int, prop: str, tier: str, faults: bool) -> dict[str, Any
     extra = ["Vals", "Carrier", "Boom"]
     if prop in ("C01",):
         extra.append("FS")
+    if prop == "C04":
+        leafs += ["Vals", "Vals"]
     leafs += r.sample(extra, r.choice([0, 1, 2, len(extra)]))
     if faults and "Boom" not in leafs and r.random() < 0.5:
         leafs.append("Boom")
     inner = r.sample(U.INNER_CLASSES, r.choice([2, 3, 5]))
     pools: dict[str, Any] = {"str": strpool, "int": r.sample(U.INT_POOL, 3), "float": r.sample(U.FLOAT_POOL, 3)}
+    if prop == "C04":
+        pools["float"] = r.sample(U.FLOAT_POOL + [-0.0], 4)
+        pools["int"] = r.sample(U.INT_POOL, 4)
     if rtc:
         pools["bool"] = [True]  # is_instance(False, bool) is False on the pinned tree (C13, not decided here)
     weights = dict(BASE_WEIGHTS.get(prop, BASE_WEIGHTS["C03"]))
@@ -1237,7 +1406,7 @@ def make_config(rseed: int, prop: str, tier: str, faults: bool) -> dict[str, Any
         "maxd": r.choice([2, 3, 4]),
         "maxw": r.choice([2, 3, 4]),
         "max_live": r.choice([25, 40, 70]),
-        "p_ref": r.choice([0.0, 0.05, 0.15]),
+        "p_ref": r.choice([0.05, 0.15, 0.3]) if prop == "C04" else r.choice([0.0, 0.05, 0.15]),
         "p_mutate": r.choice([0.1, 0.4, 0.7]) if prop == "C01" else r.choice([0.0, 0.1, 0.3]),
         "p_bad_replace": r.choice([0.2, 0.4]),
         "leaf_classes": leafs,
@@ -1245,6 +1414,8 @@ def make_config(rseed: int, prop: str, tier: str, faults: bool) -> dict[str, Any
         "origins": r.sample(U.ORIGIN_KEYS, r.choice([1, 2, 3])),
         "pools": pools,
         "weights": weights,
+        "formats": r.sample(list(FORMATS), r.choice([1, 2, 4])),
+        "ser_faults": prop in ("C03", "C10"),
     }
 
 
@@ -1288,4 +1459,801 @@ def nontrivial(prop: str, w: World) -> bool:
         return w.stats.steps >= 5 and len(k) >= 3
     if prop == "C01":
         return p.get("twin_created", 0) > 0 or w.stats.steps >= 5
+    if prop == "C04":
+        return p.get("deser_recreated", 0) + p.get("deser_reused_all", 0) + p.get("fresh_process_roundtrip", 0) > 0
+    if prop == "C09":
+        return k.get("transform", 0) > 0
     return w.stats.steps >= 3
+
+
+# ================================================================================================
+# part 2: serialization (C04), observers / generators / poke (C10, C03), transform (C09)
+# ================================================================================================
+import base64  # noqa: E402
+
+from pyoak.origin import SOURCE_OPTIMIZED_SERIALIZATION_KEY, NoOrigin, NoPosition, NoSource, Source  # noqa: E402
+from pyoak.tree import Tree as PTree  # noqa: E402
+from pyoak.visitor import ASTTransformVisitor, ASTVisitor  # noqa: E402
+
+FORMATS = ("dict", "json", "msgpack", "yaml")
+
+
+def snap_tree(o: Any, shared: dict[int, int], counter: list[int], with_ref: bool = True) -> dict[str, Any]:
+    """Harness-side snapshot of a tree for the round-trip oracle (never pyoak's own serializer)."""
+    idx = counter[0]
+    counter[0] += 1
+    first = shared.setdefault(id(o), idx)
+    cls = cname(o)
+    node: dict[str, Any] = {
+        "cls": cls,
+        "id": o.id,
+        "cid": o.content_id,
+        "props": {f.name: repr(U.canon(getattr(o, f.name))) for f in U.PROP_FIELDS[cls]},
+        "okey": origin_key(o.origin),
+        "no_origin_singleton": (o.origin is NO_ORIGIN) if isinstance(o.origin, NoOrigin) else None,
+        "pos": idx,
+        "same_as": first,
+        "children": [[f, i, snap_tree(c, shared, counter, with_ref)] for f, i, c in children_of(o)],
+    }
+    if with_ref:
+        node["ref"] = weakref.ref(o)
+    return node
+
+
+def snap_strip(s: dict[str, Any]) -> dict[str, Any]:
+    return {k: ([[f, i, snap_strip(c)] for f, i, c in v] if k == "children" else v) for k, v in s.items() if k != "ref"}
+
+
+def serialize(o: Any, fmt: str, opts: dict[str, Any] | None) -> Any:
+    if fmt == "dict":
+        return o.as_dict(serialization_options=opts)
+    if fmt == "json":
+        return o.to_json(serialization_options=opts)
+    if fmt == "msgpack":
+        return o.to_msgpck(serialization_options=opts)
+    if fmt == "yaml":
+        return o.to_yaml(serialization_options=opts)
+    raise HarnessError(fmt)
+
+
+def deserialize(cls: Any, data: Any, fmt: str, opts: dict[str, Any] | None) -> Any:
+    if fmt == "dict":
+        return cls.as_obj(data, serialization_options=opts)
+    if fmt == "json":
+        return cls.from_json(data, serialization_options=opts)
+    if fmt == "msgpack":
+        return cls.from_msgpck(data, serialization_options=opts)
+    if fmt == "yaml":
+        return cls.from_yaml(data, serialization_options=opts)
+    raise HarnessError(fmt)
+
+
+def ser_opts(name: str | None) -> dict[str, Any] | None:
+    if name == "idx":
+        return {SOURCE_OPTIMIZED_SERIALIZATION_KEY: True}
+    return None
+
+
+def payload_to_json(data: Any, fmt: str) -> Any:
+    if fmt == "msgpack":
+        return {"b64": base64.b64encode(data).decode("ascii")}
+    return data
+
+
+def payload_from_json(j: Any, fmt: str) -> Any:
+    if fmt == "msgpack":
+        return base64.b64decode(j["b64"])
+    return j
+
+
+class _UserError(Exception):
+    """Raised by a universe visitor whose rule is 'raise'."""
+
+
+def _mk_visit(cls_name: str, rule: Any, world: "World"):
+    def visit(self, node):  # noqa: ANN001
+        FAULTS.hit("visit")
+        self.log.append((cls_name, cname(node)))
+        base = self.generic_visit(node)
+        kind = rule if isinstance(rule, str) else rule[0]
+        if kind == "keep":
+            return base
+        if kind == "remove":
+            return None
+        if kind == "raise":
+            raise _UserError(cls_name)
+        if kind == "rewrite":
+            f = next(x for x in U.PROP_FIELDS[cls_name] if x.name == rule[1])
+            return dataclasses.replace(base, **{rule[1]: U.decode(f.vt, rule[2])})
+        if kind == "fresh":
+            return world.build(rule[1])
+        if kind == "existing":
+            return world.node_at(rule[1])
+        raise HarnessError(f"bad rule {rule}")
+
+    visit.__name__ = "visit_" + cls_name
+    return visit
+
+
+def make_visitor(rules: dict[str, Any], strict: bool, world: "World", transform: bool = True) -> Any:
+    ns: dict[str, Any] = {"strict": strict}
+    for cls_name, rule in rules.items():
+        ns["visit_" + cls_name] = _mk_visit(cls_name, rule, world)
+    if transform:
+        V = type("RuleVisitor", (ASTTransformVisitor,), ns)
+    else:
+        def generic_visit(self, node):  # noqa: ANN001
+            self.log.append(("generic", cname(node)))
+            return "generic"
+
+        ns2: dict[str, Any] = {"strict": strict, "generic_visit": generic_visit}
+        for cls_name in rules:
+            def mk(cn: str):
+                def visit(self, node):  # noqa: ANN001
+                    self.log.append((cn, cname(node)))
+                    return cn
+                visit.__name__ = "visit_" + cn
+                return visit
+            ns2["visit_" + cls_name] = mk(cls_name)
+        V = type("LogVisitor", (ASTVisitor,), ns2)
+    v = V()
+    v.log = []
+    return v
+
+
+def rule_for(cls: str, rules: dict[str, Any], strict: bool) -> tuple[str | None, Any]:
+    if strict:
+        return (cls, rules[cls]) if cls in rules else (None, None)
+    for c in U.MRO[cls]:
+        if c in rules:
+            return c, rules[c]
+    return None, None
+
+
+def _w2(name):  # attach part-2 methods to World
+    def deco(fn):
+        setattr(World, name, fn)
+        return fn
+    return deco
+
+
+@_w2("op_ser")
+def op_ser(self: World, op: dict[str, Any]) -> str:
+    o = self.node_at(op["n"])
+    fmt = op["fmt"]
+    try:
+        data = serialize(o, fmt, ser_opts(op.get("opts")))
+    except InjectedFault as e:
+        self.stats.probes["fault_fired:" + e.site] += 1
+        return "raised:InjectedFault"
+    except Exception as e:  # noqa: BLE001
+        if self.on("C04"):
+            raise self.viol("C04.0 serialize-raised", f"C04.0:ser:{fmt}:{type(e).__name__}", f"{fmt} serialization raised {type(e).__name__}: {e}") from None
+        raise Cut(f"serialize raised {type(e).__name__}: {e}") from None
+    shared: dict[int, int] = {}
+    snapshot = snap_tree(o, shared, [0])
+    sources = Source.all_as_dict() if op.get("opts") == "idx" else None
+    self.put(op["out"], "payload", data, op.get("actor", "a0"), {"fmt": fmt, "opts": op.get("opts"), "snap": snapshot, "sources": sources, "root_cls": cname(o)})
+    if len(shared) < len(walk(o)):
+        self.stats.probes["ser_tree_with_shared_subtree"] += 1
+    return "ok"
+
+
+def _flatten(s: dict[str, Any]) -> list[dict[str, Any]]:
+    out = [s]
+    for _f, _i, c in s["children"]:
+        out.extend(_flatten(c))
+    return out
+
+
+@_w2("op_deser")
+def op_deser(self: World, op: dict[str, Any]) -> str:
+    h = self.handles.get(op["p"])
+    if h is None or h.kind != "payload":
+        raise SkipOp("no payload")
+    fmt, opts, snapshot = h.meta["fmt"], h.meta["opts"], h.meta["snap"]
+    entry = ASTNode if op.get("entry") == "ASTNode" else U.CLS[h.meta["root_cls"]]
+    judge = self.on("C04")
+    pre_objs: set[int] = set()
+    plan: dict[int, str] = {}
+    if judge:
+        pre_objs = {id(v) for v in list(NODE_REGISTRY.values())} | {id(o) for o in self.last_reach}
+        flat = _flatten(snapshot)
+        by_id: dict[str, set[int]] = {}
+        for s in flat:
+            by_id.setdefault(s["id"], set()).add(s["same_as"])
+        for s in flat:
+            orig = s["ref"]()
+            pre = ASTNode.get_any(s["id"])
+            if len(by_id[s["id"]]) > 1:
+                plan[s["pos"]] = "ambiguous"
+            elif pre is not None and pre is orig:
+                plan[s["pos"]] = "reuse"
+            elif pre is None:
+                plan[s["pos"]] = "new"
+            else:
+                plan[s["pos"]] = "usurped"
+            del orig, pre
+    pre = self._pre_ids()
+    try:
+        res = deserialize(entry, h.obj, fmt, ser_opts(opts))
+    except InjectedFault as e:
+        self.stats.probes["fault_fired:" + e.site] += 1
+        return "raised:InjectedFault"
+    except Exception as e:  # noqa: BLE001
+        if judge and any(v in ("usurped", "ambiguous") for v in plan.values()):
+            # a position whose id was taken over by another live node is outside the guarantee; whatever the
+            # usurper does to its ancestors (e.g. a type error under RUNTIME_TYPE_CHECK) is not judged
+            self.stats.probes["deser_raised_with_usurped_id"] += 1
+            return "raised:" + type(e).__name__
+        if judge:
+            raise self.viol("C04.0 deserialize-raised", f"C04.0:deser:{fmt}:{type(e).__name__}", f"{fmt} deserialization raised {type(e).__name__}: {e}", fmt=fmt) from None
+        if self.cfg["digest"] < 8:
+            return "raised:" + type(e).__name__
+        raise Cut(f"deserialize raised {type(e).__name__}: {e}") from None
+    if judge:
+        self._check_roundtrip(snapshot, res, plan, pre_objs, fmt, opts)
+    self.put(op["out"], "node", res, op.get("actor", "a0"))
+    del res
+    self.discover()
+    sib: dict[str, int] = {}
+    for x in self.new_objs:
+        sib[self.idkey(x)] = sib.get(self.idkey(x), 0) + 1
+    if self.new_objs:
+        self.stats.probes["deser_recreated"] += 1
+    else:
+        self.stats.probes["deser_reused_all"] += 1
+    return "ok"
+
+
+@_w2("_check_roundtrip")
+def _check_roundtrip(self: World, snapshot: dict[str, Any], res: Any, plan: dict[int, str], pre_objs: set[int], fmt: str, opts: Any) -> None:
+    seen_new: dict[int, Any] = {}  # same_as -> result object (sharing)
+    tag = f"{fmt}{'+idx' if opts else ''}"
+
+    def bad(oracle: str, sig: str, msg: str, **facts: Any) -> Violation:
+        return self.viol(oracle, f"{sig}:{tag}", msg + f" [{tag}]", fmt=fmt, **facts)
+
+    def own_fields(s: dict[str, Any], r: Any, how: str) -> None:
+        if cname(r) != s["cls"]:
+            raise bad("C04.2 roundtrip-class", "C04.2:class", f"position {s['pos']}: class {cname(r)} instead of {s['cls']}")
+        if r.id != s["id"]:
+            raise bad("C04.3 roundtrip-id", f"C04.3:id:{how}", f"position {s['pos']} ({s['cls']}): id {r.id} instead of serialized {s['id']}", how=how)
+        for f in U.PROP_FIELDS[s["cls"]]:
+            got = repr(U.canon(getattr(r, f.name)))
+            if got != s["props"][f.name]:
+                raise bad(
+                    "C04.4 roundtrip-property-value",
+                    f"C04.4:{f.vt}:{'noncompare' if not f.compare else 'compare'}",
+                    f"position {s['pos']} ({s['cls']}): property {f.name} came back as {got}, was {s['props'][f.name]}",
+                    field=f.name,
+                )
+        if origin_key(r.origin) != s["okey"]:
+            raise bad("C04.5 roundtrip-origin", f"C04.5:{s['okey'].split(':')[0]}", f"position {s['pos']}: origin {origin_key(r.origin)} instead of {s['okey']}")
+        if s["no_origin_singleton"] and r.origin is not NO_ORIGIN:
+            raise bad("C04.6 roundtrip-singleton", "C04.6:NoOrigin", "NoOrigin did not come back as the singleton")
+        if isinstance(r.origin, NoOrigin) is False:
+            src = r.origin.source
+            if isinstance(src, NoSource) and src is not NoSource():
+                raise bad("C04.6 roundtrip-singleton", "C04.6:NoSource", "NoSource did not come back as the singleton")
+            if isinstance(r.origin.position, NoPosition) and r.origin.position is not NoPosition():
+                raise bad("C04.6 roundtrip-singleton", "C04.6:NoPosition", "NoPosition did not come back as the singleton")
+
+    def rec(s: dict[str, Any], r: Any) -> bool:
+        """returns True when this position or something below it is exempt (taints the ancestors)."""
+        p = plan[s["pos"]]
+        if p in ("ambiguous", "usurped"):
+            self.stats.probes["id_taken_over" if p == "usurped" else "ambiguous_id_in_tree"] += 1
+            return True
+        if p == "reuse":
+            orig = s["ref"]()
+            if r is not orig:
+                raise bad("C04.1 registered-original-not-reused", "C04.1", f"position {s['pos']} ({s['cls']}): the original is still registered but a different object came back")
+            self.stats.probes["deser_reused_live_node"] += 1
+            return False
+        # new
+        if id(r) in pre_objs:
+            raise bad("C04.7 recreated-node-is-preexisting-object", "C04.7", f"position {s['pos']}: original not registered and id free, but a pre-existing object came back")
+        if s["same_as"] in seen_new:
+            if seen_new[s["same_as"]] is not r:
+                raise bad("C04.8 shared-node-duplicated", "C04.8", f"position {s['pos']}: a node that occurred at several positions came back as different objects")
+            self.stats.probes["shared_subtree_roundtrip"] += 1
+            return False
+        seen_new[s["same_as"]] = r
+        own_fields(s, r, "forced" if _SUFFIX.match(s["id"]) else "plain")
+        if _SUFFIX.match(s["id"]):
+            self.stats.probes["deser_forced_id"] += 1
+        if ASTNode.get_any(r.id) is not r:
+            raise bad("C04.9 recreated-node-not-registered", "C04.9", f"position {s['pos']} ({s['cls']}): re-created node is not registered under its id")
+        got_children = children_of(r)
+        if [(f, i) for f, i, _c in got_children] != [(f, i) for f, i, _c in s["children"]]:
+            raise bad("C04.10 roundtrip-shape", "C04.10", f"position {s['pos']} ({s['cls']}): child positions differ")
+        tainted = False
+        for (f, i, cs), (_f2, _i2, cr) in zip(s["children"], got_children):
+            if rec(cs, cr):
+                tainted = True
+        if not tainted and r.content_id != s["cid"]:
+            raise bad("C04.11 roundtrip-content_id", "C04.11", f"position {s['pos']} ({s['cls']}): content_id {r.content_id} instead of {s['cid']}")
+        return tainted
+
+    tainted = rec(snapshot, res)
+    orig_root = snapshot["ref"]()
+    if not tainted and orig_root is not None and not (res == orig_root):
+        raise bad("C04.12 result-not-equal-original", "C04.12", "round-trip result is not == to the (still alive) original")
+    if not tainted:
+        self.stats.probes["roundtrip_fully_judged"] += 1
+
+
+@_w2("op_peer_roundtrip")
+def op_peer_roundtrip(self: World, op: dict[str, Any]) -> str:
+    """Restart: only the payload bytes survive; a fresh interpreter (other hash seed, pristine registry) reads it."""
+    h = self.handles.get(op["p"])
+    if h is None or h.kind != "payload" or self.peer is None:
+        raise SkipOp("no payload / no peer")
+    fmt, opts = h.meta["fmt"], h.meta["opts"]
+    rep = self.peer.request(
+        {"op": "roundtrip", "fmt": fmt, "opts": opts, "payload": payload_to_json(h.obj, fmt), "sources": h.meta["sources"], "digest": self.cfg["digest"], "rtc": self.cfg["rtc"]}
+    )
+    self.stats.probes["fresh_process_roundtrip"] += 1
+    if "error" in rep:
+        if self.on("C04"):
+            raise self.viol("C04.0 deserialize-raised", f"C04.0:peer:{fmt}:{rep['error'].split(':')[0]}", f"fresh-process {fmt} deserialization raised {rep['error']}", fmt=fmt)
+        raise Cut("peer deser raised " + rep["error"])
+    if not self.on("C04") and not self.on("C01"):
+        return "ok"
+    want = snap_strip(h.meta["snap"])
+    got = rep["snap"]
+    tag = f"{fmt}{'+idx' if opts else ''}:fresh-process"
+    fw, fg = _flatten(want), _flatten(got)
+    ids: dict[str, set[int]] = {}
+    for s in fw:
+        ids.setdefault(s["id"], set()).add(s["same_as"])
+    ambiguous = any(len(v) > 1 for v in ids.values())
+    if ambiguous:
+        self.stats.probes["ambiguous_id_in_tree"] += 1
+        return "ok"
+    if len(fw) != len(fg):
+        raise self.viol("C04.10 roundtrip-shape", f"C04.10:{tag}", f"fresh process: {len(fg)} positions instead of {len(fw)} [{tag}]")
+    for a, b in zip(fw, fg):
+        for k in ("cls", "id", "props", "okey", "no_origin_singleton", "same_as"):
+            if a[k] != b[k]:
+                if self.on("C01"):
+                    continue
+                detail = k
+                if k == "props":
+                    bad = [n for n in a["props"] if a["props"][n] != b["props"].get(n)]
+                    ft = {f.name: f for f in U.PROP_FIELDS[a["cls"]]}
+                    detail = "props:" + ",".join(ft[n].vt for n in bad)
+                raise self.viol(
+                    "C04.13 fresh-process-roundtrip-differs",
+                    f"C04.13:{detail}:{tag}",
+                    f"fresh process: position {a['pos']} ({a['cls']}) differs in {k}: {b[k]!r} instead of {a[k]!r} [{tag}]",
+                    fmt=fmt,
+                )
+        if a["cid"] != b["cid"]:
+            p = "C01" if self.on("C01") else "C04"
+            raise self.viol(
+                f"{p}.5 content_id-differs-across-processes" if p == "C01" else "C04.11 roundtrip-content_id",
+                f"{p}.xproc-cid:{a['cls']}",
+                f"position {a['pos']} ({a['cls']}): content_id {b['cid']} in a fresh process (other hash seed, permuted field order) instead of {a['cid']}",
+            )
+    if not all(rep.get("registered", [])):
+        raise self.viol("C04.9 recreated-node-not-registered", f"C04.9:{tag}", "fresh process: a re-created node is not registered under its id")
+    return "ok"
+
+
+@_w2("op_peer_cid")
+def op_peer_cid(self: World, op: dict[str, Any]) -> str:
+    """C01: the same spec built in another process (other hash seed, permuted field order)."""
+    o = self.node_at(op["n"])
+    if self.peer is None:
+        raise SkipOp("no peer")
+    spec = spec_of(o)
+    rep = self.peer.request({"op": "build", "spec": spec, "digest": self.cfg["digest"]})
+    if "error" in rep:
+        raise Cut("peer build raised " + rep["error"])
+    mine = [x.content_id for x in walk(o)]
+    self.stats.probes["peer_cid_compared"] += 1
+    if self.on("C01") and mine != rep["cids"]:
+        k = next(i for i, (a, b) in enumerate(zip(mine, rep["cids"])) if a != b)
+        cls = cname(walk(o)[k])
+        raise self.viol(
+            "C01.5 content_id-differs-across-processes",
+            f"C01.xproc-cid:{cls}",
+            f"a {cls} built from the same spec has content_id {mine[k]} here and {rep['cids'][k]} in a process with another hash seed / field order",
+            spec=spec,
+        )
+    return "ok"
+
+
+@_w2("op_findall")
+def op_findall(self: World, op: dict[str, Any]) -> str:
+    o = self.node_at(op["n"])
+    g = o.findall(op["xpath"])
+    try:
+        for _ in range(op.get("take", 1)):
+            next(g)
+    except StopIteration:
+        self.stats.probes["findall_exhausted"] += 1
+        return "ok"
+    self.put(op["out"], "gen", g, op.get("actor", "a0"), {"root": o})
+    self.stats.probes["findall_suspended"] += 1
+    return "ok"
+
+
+@_w2("op_walkgen")
+def op_walkgen(self: World, op: dict[str, Any]) -> str:
+    o = self.node_at(op["n"])
+    how = op["how"]
+    if how == "dfs":
+        g = o.dfs(bottom_up=op.get("bottom_up", False))
+    elif how == "bfs":
+        g = o.bfs()
+    else:
+        g = o.gather(U.CLS[op.get("cls", "LeafA")])
+    try:
+        for _ in range(op.get("take", 1)):
+            next(g)
+    except StopIteration:
+        return "ok"
+    self.put(op["out"], "gen", g, op.get("actor", "a0"), {"root": o})
+    return "ok"
+
+
+@_w2("op_gen_next")
+def op_gen_next(self: World, op: dict[str, Any]) -> str:
+    h = self.handles.get(op["h"])
+    if h is None or h.kind != "gen":
+        raise SkipOp("no gen")
+    try:
+        next(h.obj)
+    except StopIteration:
+        del self.handles[op["h"]]
+    return "ok"
+
+
+@_w2("op_tree")
+def op_tree(self: World, op: dict[str, Any]) -> str:
+    o = self.node_at(op["n"])
+    t = o.to_tree()
+    self.put(op["out"], "tree", t, op.get("actor", "a0"), {"root": o})
+    return "ok"
+
+
+@_w2("op_obs")
+def op_obs(self: World, op: dict[str, Any]) -> str:
+    """Read-only library operations: only the frame condition / registry invariants judge them."""
+    a = self.node_at(op["n"])
+    what = op["what"]
+    try:
+        if what == "eq":
+            b = self.node_at(op["m"])
+            _ = (a == b, a != b, hash(a), hash(b), a.is_equal(b), repr(a), str(b))
+        elif what == "rich":
+            from rich.console import Console
+            import io
+
+            Console(file=io.StringIO(), width=120).print(a)
+        elif what == "walk":
+            list(a.dfs())
+            list(a.dfs(bottom_up=True, prune=lambda i: cname(i.node) == "Pair", filter=lambda i: i.findex != 1))
+            list(a.bfs(filter=lambda i: cname(i.node) != "LeafB"))
+            list(a.gather((U.CLS["LeafA"], U.CLS["Seq"]), exact_type=True))
+            _ = a.children
+        elif what == "tree":
+            t = PTree(a)
+            for x in walk(a)[:12]:
+                t.get_xpath(x)
+                t.get_parent_info(x)
+                list(t.get_ancestors(x))
+                t.get_depth(x)
+                t.is_in_tree(x)
+                t.get_first_ancestor_of_type(x, U.CLS["Expr"])
+        elif what == "xpath":
+            from pyoak.match.xpath import ASTXpath
+
+            a.find(op.get("xpath", "//LeafA"))
+            list(a.findall(op.get("xpath", "//LeafA")))
+            xp = ASTXpath(op.get("xpath", "//LeafA"))
+            for x in walk(a)[:8]:
+                xp.match(a, x)
+        elif what == "match":
+            from pyoak.match.pattern import MultiPatternMatcher, NodeMatcher
+
+            m, _msg = NodeMatcher.from_pattern(op.get("pattern", "(* @origin -> o)"))
+            if m is not None:
+                for x in walk(a)[:8]:
+                    m.match(x)
+            MultiPatternMatcher([("r1", "(LeafA @a -> v)"), ("r2", "(Seq @items=[* -> rest])")]).match(a)
+        elif what == "accessors":
+            for x in walk(a)[:8]:
+                list(x.get_properties(skip_id=False, skip_origin=False, skip_content_id=False, sort_keys=True))
+                list(x.get_child_nodes_with_field(sort_keys=True))
+                list(x.iter_child_fields())
+                x.to_properties_dict()
+                type(x).get_child_fields()
+                list(type(x).get_property_fields())
+        elif what == "ser":
+            for fmt in FORMATS:
+                serialize(a, fmt, ser_opts(op.get("opts")))
+        elif what == "visit":
+            v = make_visitor(op.get("rules", {"LeafA": "keep"}), op.get("strict", False), self, transform=False)
+            for x in walk(a)[:12]:
+                v.visit(x)
+        else:
+            raise HarnessError(what)
+    except SkipOp:
+        raise
+    except HarnessError:
+        raise
+    except Exception as e:  # noqa: BLE001
+        raise Cut(f"obs {what} raised {type(e).__name__}: {e}") from None
+    return "ok"
+
+
+@_w2("op_poke")
+def op_poke(self: World, op: dict[str, Any]) -> str:
+    o = self.node_at(op["n"])
+    f = op["field"]
+    if not hasattr(o, f):
+        raise SkipOp("no such field")
+    try:
+        if op["how"] == "set":
+            setattr(o, f, op.get("value", "poked"))
+        else:
+            delattr(o, f)
+    except Exception as e:  # noqa: BLE001
+        return "raised:" + type(e).__name__
+    if self.on("C10"):
+        raise self.viol(
+            "C10.2 field-assignment-did-not-raise",
+            f"C10.2:{op['how']}:{'slotted' if not hasattr(o, '__dict__') else 'dict'}",
+            f"{op['how']} of field {f} on a {cname(o)} did not raise",
+            field=f,
+        )
+    return "ok"
+
+
+# ---- transform (C09) --------------------------------------------------------------------------
+
+
+def expect_transform(o: Any, rules: dict[str, Any], strict: bool, world: World, calls: list[tuple[str, str]]) -> Any:
+    """Reference rewriting (Appendix A.4) on the real input objects; returns an expectation tree."""
+    cls = cname(o)
+    meth, rule = rule_for(cls, rules, strict)
+    if meth is None:
+        return _expect_generic(o, rules, strict, world, calls)
+    calls.append((meth, cls))
+    base = _expect_generic(o, rules, strict, world, calls)
+    kind = rule if isinstance(rule, str) else rule[0]
+    if kind == "keep":
+        return base
+    if kind == "remove":
+        return "removed"
+    if kind == "raise":
+        raise _UserError(meth)
+    if kind == "rewrite":
+        if "same" in base:
+            src = base["same"]
+            b = {"new": {"cls": cls, "from": src, "props": {}, "children": None}}
+        else:
+            b = {"new": dict(base["new"])}
+            b["new"]["props"] = dict(base["new"]["props"])
+        b["new"]["props"][rule[1]] = repr(U.canon(U.decode(next(x for x in U.PROP_FIELDS[meth] if x.name == rule[1]).vt, rule[2])))
+        return b
+    if kind == "fresh":
+        return {"fresh": rule[1]}
+    if kind == "existing":
+        return {"same": world.node_at(rule[1])}
+    raise HarnessError(str(rule))
+
+
+def _expect_generic(o: Any, rules: dict[str, Any], strict: bool, world: World, calls: list[tuple[str, str]]) -> Any:
+    changed = False
+    ch: dict[str, Any] = {}
+    for f in U.CHILD_FIELDS[cname(o)]:
+        v = getattr(o, f.name)
+        if f.kind in ("tuple", "fixed"):
+            lst = []
+            for c in v:
+                e = expect_transform(c, rules, strict, world, calls)
+                if e == "removed":
+                    changed = True
+                    continue
+                lst.append(e)
+                if not ("same" in e and e["same"] is c):
+                    changed = True
+            ch[f.name] = lst
+        elif v is None:
+            ch[f.name] = None
+        else:
+            e = expect_transform(v, rules, strict, world, calls)
+            if e == "removed":
+                ch[f.name] = None
+                changed = True
+            else:
+                ch[f.name] = e
+                if not ("same" in e and e["same"] is v):
+                    changed = True
+    if not changed:
+        return {"same": o}
+    return {"new": {"cls": cname(o), "from": o, "props": {}, "children": ch}}
+
+
+@_w2("_match_expect")
+def _match_expect(self: World, e: Any, r: Any, pre_objs: set[int], path: str) -> None:
+    def bad(oracle: str, sig: str, msg: str) -> Violation:
+        return self.viol(oracle, sig, f"{msg} (at {path or 'root'})")
+
+    if "same" in e:
+        if r is not e["same"]:
+            kind = "unchanged-subtree" if id(e["same"]) in pre_objs else "replacement"
+            raise bad("C09.2 identity-not-preserved", f"C09.2:{kind}", f"expected the very same {cname(e['same'])} object, got {'another ' + cname(r) if r is not None else 'None'}")
+        return
+    if r is None:
+        raise bad("C09.3 node-missing", "C09.3", "expected a node, got None")
+    if "fresh" in e:
+        if id(r) in pre_objs:
+            raise bad("C09.4 fresh-replacement-is-preexisting", "C09.4", "replacement node is a pre-existing object")
+        return
+    n = e["new"]
+    if id(r) in pre_objs:
+        raise bad("C09.5 ancestor-of-change-not-new", "C09.5", f"a {n['cls']} above a change must be a new node but a pre-existing object was returned")
+    if cname(r) != n["cls"]:
+        raise bad("C09.6 class", "C09.6", f"expected class {n['cls']}, got {cname(r)}")
+    src = n["from"]
+    for f in U.PROP_FIELDS[n["cls"]]:
+        if f.name in n["props"]:
+            if repr(U.canon(getattr(r, f.name))) != n["props"][f.name]:
+                raise bad("C09.7 rewritten-property", "C09.7", f"property {f.name} is {getattr(r, f.name)!r}")
+        elif f.init and getattr(r, f.name) is not getattr(src, f.name) and repr(U.canon(getattr(r, f.name))) != repr(U.canon(getattr(src, f.name))):
+            raise bad("C09.8 untouched-property-changed", "C09.8", f"property {f.name} differs from the input node's")
+    if origin_key(r.origin) != origin_key(src.origin):
+        raise bad("C09.8 untouched-property-changed", "C09.8:origin", "origin differs from the input node's")
+    chs = n["children"]
+    for f in U.CHILD_FIELDS[n["cls"]]:
+        got = getattr(r, f.name)
+        if chs is None:
+            # rewrite of an otherwise unchanged node: children are the input's very objects
+            want = getattr(src, f.name)
+            if f.kind in ("tuple", "fixed"):
+                if len(got) != len(want) or any(x is not y for x, y in zip(got, want)):
+                    raise bad("C09.2 identity-not-preserved", "C09.2:unchanged-subtree", f"children in {f.name} are not the input's objects")
+            elif got is not want:
+                raise bad("C09.2 identity-not-preserved", "C09.2:unchanged-subtree", f"child {f.name} is not the input's object")
+            continue
+        want = chs[f.name]
+        if f.kind in ("tuple", "fixed"):
+            if not isinstance(got, tuple) or len(got) != len(want):
+                raise bad(
+                    "C09.9 tuple-children",
+                    "C09.9:length",
+                    f"field {f.name}: expected {len(want)} elements after rewriting, got {len(got) if isinstance(got, tuple) else type(got).__name__}",
+                )
+            for i, (we, g) in enumerate(zip(want, got)):
+                self._match_expect(we, g, pre_objs, f"{path}/{f.name}[{i}]")
+        elif want is None:
+            if got is not None:
+                raise bad("C09.10 removed-single-child", "C09.10", f"field {f.name} should be None after removal")
+        else:
+            self._match_expect(want, got, pre_objs, f"{path}/{f.name}")
+
+
+@_w2("op_transform")
+def op_transform(self: World, op: dict[str, Any]) -> str:
+    o = self.node_at(op["n"])
+    rules, strict = op["rules"], op.get("strict", False)
+    judge = self.on("C09")
+    for r in rules.values():
+        if isinstance(r, list) and r[0] == "existing":
+            self.node_at(r[1])
+    calls: list[tuple[str, str]] = []
+    exp: Any = None
+    exp_raises = False
+    try:
+        exp = expect_transform(o, rules, strict, self, calls)
+    except _UserError:
+        exp_raises = True
+    pre_objs = {id(x) for x in self.last_reach} | {id(v) for v in list(NODE_REGISTRY.values())}
+    v = make_visitor(rules, strict, self)
+    FAULTS.reset_hits()
+    outcome = "ok"
+    res = None
+    try:
+        res = v.transform(o)
+    except _UserError:
+        outcome = "raised:UserError"
+    except InjectedFault as e:
+        self.stats.probes["fault_fired:" + e.site] += 1
+        outcome = "raised:InjectedFault"
+    except Exception as e:  # noqa: BLE001
+        if self.cfg["rtc"] and type(e).__name__ == "InvalidTypes":
+            outcome = "raised:InvalidTypes"
+        elif judge:
+            raise self.viol("C09.0 transform-raised", f"C09.0:{type(e).__name__}", f"transform raised {type(e).__name__}: {e}") from None
+        else:
+            raise Cut(f"transform raised {type(e).__name__}: {e}") from None
+    m = FAULTS.hits.get("visit", 0)
+    if judge and not op.get("fault"):
+        if exp_raises != (outcome == "raised:UserError"):
+            raise self.viol("C09.1 raise-rule", "C09.1", f"visitor rule 'raise' expected={exp_raises}, outcome {outcome}")
+        if outcome == "ok":
+            if v.log != calls:
+                k = next((i for i, (a, b) in enumerate(zip(v.log, calls)) if a != b), min(len(v.log), len(calls)))
+                raise self.viol(
+                    "C09.11 dispatch",
+                    f"C09.11:{'strict' if strict else 'mro'}",
+                    f"visit method dispatch differs from the {'strict' if strict else 'MRO'} rule at call {k}: got {v.log[k] if k < len(v.log) else None}, expected {calls[k] if k < len(calls) else None}",
+                    strict=strict,
+                )
+            if exp == "removed":
+                if res is not None:
+                    raise self.viol("C09.3 root-removed", "C09.3:root", "root mapped to None but transform returned a node")
+            else:
+                self._match_expect(exp, res, pre_objs, "")
+            if exp != "removed" and "same" in exp and exp["same"] is o:
+                self.stats.probes["transform_unchanged_tree"] += 1
+            else:
+                self.stats.probes["transform_changed_tree"] += 1
+    if res is not None and outcome == "ok":
+        self.put(op["out"], "node", res, op.get("actor", "a0"))
+    del res, v
+    if outcome.startswith("raised"):
+        self.stats.probes["transform_raised_midway"] += 1
+    # fault enumeration: the same transform with the k-th visitor call raising, for every k
+    if op.get("enum") and m and not op.get("fault"):
+        ks = list(range(1, m + 1))
+        if len(ks) > 24:
+            ks = ks[:: max(1, len(ks) // 24)][:24]
+        for k in ks:
+            collect()
+            self.discover()
+            before_reg = {kk: id(vv) for kk, vv in list(NODE_REGISTRY.items())}
+            v2 = make_visitor(rules, strict, self)
+            FAULTS.disarm()
+            FAULTS.reset_hits()
+            FAULTS.arm("visit", k)
+            try:
+                v2.transform(o)
+                raised = False
+            except InjectedFault:
+                raised = True
+            except _UserError:
+                raised = True
+            except Exception as e:  # noqa: BLE001
+                if self.cfg["rtc"] and type(e).__name__ == "InvalidTypes":
+                    raised = True
+                elif judge:
+                    raise self.viol("C09.0 transform-raised", f"C09.0:faulted:{type(e).__name__}", f"transform with visitor call {k} raising surfaced {type(e).__name__}: {e}") from None
+                else:
+                    raise Cut(f"faulted transform raised {type(e).__name__}") from None
+            finally:
+                FAULTS.disarm()
+            del v2
+            self.stats.probes["transform_fault_enumerated"] += 1
+            if not raised and judge:
+                raise self.viol("C09.12 fault-swallowed", "C09.12", f"visitor call {k} raised but transform returned normally")
+            collect()
+            self.discover()
+            if self.on("C09") or self.on("C10"):
+                self.check_frame_for(op, f"transform with visitor call {k}/{m} raising")
+            if self.on("C03"):
+                now = {kk: id(vv) for kk, vv in list(NODE_REGISTRY.items())}
+                if now != before_reg:
+                    raise self.viol("C03.10 failed-transform-changed-registry", "C03.10", f"a transform that raised at visitor call {k} left the registry changed")
+    return outcome
+
+
+@_w2("check_frame_for")
+def check_frame_for(self: World, op: dict[str, Any], what: str) -> None:
+    for o in self.last_reach:
+        i = self.inf(o)
+        s = snap(o)
+        if s != i.snap:
+            changed = [a[0] for a, b in zip(s, i.snap) if a != b]
+            p = "C09" if self.on("C09") else "C10"
+            raise self.viol(
+                f"{p}.13 input-modified" if p == "C09" else "C10.1 existing-node-modified",
+                f"{p}.frame:{op['op']}:{','.join(changed)}",
+                f"{what} changed field(s) {changed} of pre-existing node {i.name} ({i.cls})",
+            )
